@@ -14,6 +14,11 @@
          is computed for a token that fails steps 2-4, the nonce cache is touched (once) only for a proof
          whose MAC verified, the deciding MAC is over ``canonical_string(kid, ts, nonce, origin_id)`` under
          the secret selected by ``kid``.  (Not claimed: when the clock / key map are consulted.)
+(b') xh: histories — two presentations through the same stubbed verifier against one seen-set that starts empty:
+         which of the three configured kids (or an unknown one) each names, whether each MAC verifies and whether
+         the second carries the first's nonce are symbolic.  Oracle: the table along the history "nonces accepted
+         so far", which is the worker's and not a key's (a nonce accepted under one kid is ``replayed`` under any
+         other — rotation overlap), and which a refused proof never enters.
 (c) xh : ``canonical_string`` on short symbolic fields == NUL-join of the domain prefix and the four
          fields (an out-of-charset field may instead be refused with ValueError, spec §4), and is
          injective on NUL-free fields.
@@ -43,7 +48,8 @@ ENCODED = [pf.verify_proof, pf.canonical_string, pf.proxy_proof_gate, pf.ProofEr
 BOUNDS = (
     "rx: all strings over code points 0..0x2FFFF; decision table: unbounded ints for token length/now/skew(>=0), 0<=ts<10**20 (the 20-digit "
     "row of §3), |now|<=2**53 when read from the float wall clock, field count 1..7, "
-    "version any str len<=3, per-field charset verdict free, key map 3 kids (two share a label); canonical_string: one varied field len<=2 (nonce: 20 fixed + <=2); gate: header absent or "
+    "version any str len<=3, per-field charset verdict free, key map 3 kids (two share a label), history = one bit (nonce accepted before or not); "
+    "histories of two well-formed in-window presentations (kid 0..3, MAC right/wrong, same/other nonce) on an initially empty history; canonical_string: one varied field len<=2 (nonce: 20 fixed + <=2); gate: header absent or "
     "any str len<=2; un-stubbed: all tokens len<=%d and one-field mutations len<=2 of a minted token" % pick(6, 8)
 )
 OUTSIDE = (
@@ -56,6 +62,9 @@ ASSUMPTIONS = [
     "abstract token: len() symbolic, split('.') yields a symbolic number (1..7) of opaque fields; field 0 is a symbolic str",
     "int(ts field) = symbolic non-negative int (ts charset is [0-9]{1,20}, so int() cannot fail after step 4)",
     "ideal MAC: hmac.new records (key, msg); compare_digest(received, expected) = free symbolic bool; _unb64 returns an opaque value tied to the mac field",
+    "nonce history: one-presentation items — a single symbolic bit 'this nonce was accepted before', which only answers a cache lookup made with "
+    "the nonce itself (any other key: HarnessModelError); two-presentation item — a seen-set with NonceCache's test-and-set contract, keys compared "
+    "by equality, an opaque field rendering (str / f-string) as its own distinct tag",
     "clocks and skew are ints (comparisons and subtraction only); their rendering inside ProofError messages is abstracted to a constant (message text is not part of the claim)",
 ]
 
@@ -206,6 +215,17 @@ class _Field:
 
 _F_KID, _F_TS, _F_NONCE, _F_MAC = _Field("kid"), _Field("ts"), _Field("nonce"), _Field("mac")
 _F_X5, _F_X6 = _Field("extra5"), _Field("extra6")
+# a second presentation (item nonce_history_is_per_worker): another kid string / another nonce string.  An opaque field
+# renders (str / f-string) as its own tag, so a value derived from fields by formatting is distinct iff the fields are.
+_F_KID_B, _F_NONCE_B = _Field("kid-b"), _Field("nonce-b")
+
+
+def _cur_kid():  # type: ignore[no-untyped-def]
+    return _H.get("kid_field") or _F_KID
+
+
+def _cur_nonce():  # type: ignore[no-untyped-def]
+    return _H.get("nonce_field") or _F_NONCE
 
 
 class _Token:
@@ -218,7 +238,7 @@ class _Token:
         if sep != "." or maxsplit != -1:
             raise HarnessModelError("token split other than on '.'")
         n = _H["nfields"]
-        allf = [_H["version"], _F_KID, _F_TS, _F_NONCE, _F_MAC, _F_X5, _F_X6]
+        allf = [_H["version"], _cur_kid(), _F_TS, _cur_nonce(), _F_MAC, _F_X5, _F_X6]
         for k in range(1, 8):
             if n == k:
                 return allf[:k]
@@ -230,7 +250,12 @@ class _ReStub:
         self._field, self._key, self.pattern = field, key, pattern
 
     def match(self, s):  # type: ignore[no-untyped-def]
-        if s is not self._field:
+        field = self._field
+        if field is _F_KID:
+            field = _cur_kid()
+        elif field is _F_NONCE:
+            field = _cur_nonce()
+        if s is not field:
             raise HarnessModelError(f"{self._key} regex applied to {s!r}")
         _H["order"].append(self._key)
         return object() if _H[self._key] else None
@@ -306,7 +331,7 @@ class _Secrets:
     """Mapping[str, (secret, label)] with 3 kids (two share a label); which one the token's kid names is the symbolic kid_sel."""
 
     def get(self, k, default=None):  # type: ignore[no-untyped-def]
-        if k is not _F_KID:
+        if k is not _cur_kid():
             raise HarnessModelError(f"key map consulted with {k!r}")
         _H["order"].append("lookup")
         sel = _H["kid_sel"]
@@ -374,10 +399,37 @@ def _stub_unb64(text):  # type: ignore[no-untyped-def]
 
 
 class _Cache:
+    """One presentation against a history summarised by one bit: `fresh` = this nonce was not accepted before (under
+    whatever kid).  That bit answers the question only when the question is about the nonce itself."""
+
     def check_and_add(self, nonce):  # type: ignore[no-untyped-def]
         _H["order"].append("cache")
         _H["cache_args"].append(nonce)
+        if nonce is not _cur_nonce():
+            # (no rendering of the key here: under CrossHair it may be a symbolic string, and the engine keeps this text)
+            raise HarnessModelError("replay cache asked about a value other than the nonce: the one-bit history cannot say whether that was seen (item nonce_history_is_per_worker decides such keys)")
         return _H["fresh"]
+
+
+class _SetCache:
+    """NonceCache's contract without its clock/capacity (C23): test-and-set on a seen-set, keys compared by equality."""
+
+    def __init__(self) -> None:
+        self.seen: list = []
+
+    def check_and_add(self, key):  # type: ignore[no-untyped-def]
+        _H["order"].append("cache")
+        _H["cache_args"].append(key)
+        for k in self.seen:
+            if k is key or k == key:
+                return False
+        self.seen.append(key)
+        return True
+
+    def __getattr__(self, item: str):  # type: ignore[no-untyped-def]
+        if item.startswith("__"):
+            raise AttributeError(item)
+        raise HarnessModelError(f"NonceCache.{item} is not modelled")
 
 
 _verify_stubbed = reglobalize(
@@ -478,8 +530,17 @@ def _replay_table(args: dict) -> str | None:
     cache = None
     if args["use_cache"]:
         cache = NonceCache(ttl_seconds=max(1, skew), clock=lambda: 0.0)
-        if not args["fresh"]:
-            cache.check_and_add(f[3] if len(f) > 3 else "")
+        if not args["fresh"] and args["nonce_ok"] and len(f) > 3:
+            # "this nonce was accepted before": made true the way it becomes true in a worker — an earlier proof carrying
+            # it was verified against the same cache (under another configured kid: the history is the worker's, not a
+            # key's).  (With a malformed nonce the history does not matter: row 4 decides.)
+            other = "kid-three" if sel != 3 else "kid-one"
+            earlier = _spec_token(secrets[other][0], other, 1000, f[3], _ORIGIN)
+            try:
+                pf.verify_proof(earlier, secrets=secrets, origin_id=_ORIGIN, skew_seconds=30, nonce_cache=cache, now=1000)
+            except pf.ProofError as e:
+                return f"verify_proof({earlier!r}) (valid, built from spec §3/§4) -> {e.reason}; the table says ok"
+    held_before = len(cache) if cache is not None else 0
     want = _table(len(token), len(token.split(".")), token.split(".")[0], args["kid_ok"], args["ts_ok"], args["nonce_ok"], args["mac_cs"], sel, now, ts, skew,
                   args["mac_ok"], args["use_cache"], args["fresh"])
     import time as _time
@@ -499,7 +560,7 @@ def _replay_table(args: dict) -> str | None:
         _time.time = real_time
     if got != want:
         return f"verify_proof({token!r}, now={now}, skew={skew}, kids={sorted(secrets)}) -> {got}; the decision table of docs/proxy-proof-spec.md §6 says {want}"
-    if cache is not None and want not in ("ok", "replayed") and len(cache) != (0 if args["fresh"] else 1):
+    if cache is not None and want not in ("ok", "replayed") and len(cache) != held_before:
         return f"verify_proof({token!r}) -> {got} but the nonce of this unverified proof was put into the replay cache"
     # the abstract run also compares the *order* of effects; its observable consequence on real code:
     # a proof whose MAC does not verify must leave the replay cache untouched
@@ -649,6 +710,86 @@ def verify_equals_decision_table_wall_clock(length: int, nfields: int, version: 
     post: _
     """
     return _table_check(length, nfields, version, kid_ok, ts_ok, nonce_ok, mac_cs, kid_sel, now, ts, skew, mac_ok, fresh, False, True)
+
+
+# (b') histories: two presentations against one worker's nonce history.  The history of the table's step 9 is "the nonces
+# accepted so far" — the worker's, whatever kid each was accepted under (rotation overlap: several kids configured at once).
+
+
+def _present(cache, kid_field, nonce_field, kid_sel: int, mac_ok: bool) -> str:  # type: ignore[no-untyped-def]
+    """One otherwise well-formed, in-window presentation through the stubbed verifier; returns the reason or 'ok'."""
+    _H.clear()
+    _H.update(length=100, nfields=5, version="v1", kid_ok=True, ts_ok=True, nonce_ok=True, mac_cs=True, kid_sel=kid_sel, ts=1000, wall=1000,
+              mac_ok=mac_ok, fresh=True, order=[], macs=[], compared=[], cache_args=[], kid_field=kid_field, nonce_field=nonce_field)
+    try:
+        _verify_stubbed(_TOKEN, secrets=_SECRETS, origin_id=_ORIGIN, skew_seconds=_SymInt(30), nonce_cache=cache, now=_SymInt(1000))
+    except pf.ProofError as e:
+        return e.reason
+    return "ok"
+
+
+def _history_expect(kid_sel1: int, mac_ok1: bool, kid_sel2: int, mac_ok2: bool, same_nonce: bool) -> tuple:  # type: ignore[type-arg]
+    """The table of §6 along a history that starts empty: a nonce enters it when — and only when — its proof was accepted."""
+    want1 = _table(100, 5, "v1", True, True, True, True, kid_sel1, 1000, 1000, 30, mac_ok1, True, True)
+    seen = want1 == "ok" and same_nonce
+    want2 = _table(100, 5, "v1", True, True, True, True, kid_sel2, 1000, 1000, 30, mac_ok2, True, not seen)
+    return want1, want2
+
+
+def _replay_history(args: dict) -> str | None:
+    """Real verifier, real NonceCache, tokens computed from spec §3/§4 with the standard library."""
+    from vgi_rpc.http._replay import NonceCache
+
+    real = {1: b"\x01" * 32, 2: b"\x02" * 32, 3: b"\x04" * 32}
+    wrong = b"\x03" * 32
+    names = {0: "kid-none", 1: "kid-one", 2: "kid-two", 3: "kid-three"}
+    secrets = {"kid-one": (real[1], "proxy-A"), "kid-two": (real[2], "proxy-A"), "kid-three": (real[3], "proxy-B")}
+    cache = NonceCache(ttl_seconds=30, clock=lambda: 0.0)
+    n1 = "H" * 22
+    n2 = n1 if args["same_nonce"] else "J" * 22
+    wants = _history_expect(args["kid_sel1"], args["mac_ok1"], args["kid_sel2"], args["mac_ok2"], args["same_nonce"])
+    told = []
+    for sel, mac_ok, nonce, want in ((args["kid_sel1"], args["mac_ok1"], n1, wants[0]), (args["kid_sel2"], args["mac_ok2"], n2, wants[1])):
+        tok = _spec_token(real.get(sel, wrong) if mac_ok else wrong, names[sel], 1000, nonce, _ORIGIN)
+        try:
+            pf.verify_proof(tok, secrets=secrets, origin_id=_ORIGIN, skew_seconds=30, nonce_cache=cache, now=1000)
+            got = "ok"
+        except pf.ProofError as e:
+            got = e.reason
+        except Exception as e:  # noqa: BLE001
+            got = f"{type(e).__name__}: {e}"
+        told.append(f"verify_proof({tok!r}) -> {got}")
+        if got != want:
+            return ("one worker, kids " + ", ".join(sorted(secrets)) + ", one replay cache, clock 1000: " + "; then ".join(told)
+                    + f" — the decision table of docs/proxy-proof-spec.md §6 says {want}" + (" (step 9: nonce already seen within the window)" if want == "replayed" else ""))
+    return None
+
+
+def _history_sig(args: dict, conc) -> str:  # type: ignore[no-untyped-def]
+    if args["same_nonce"] and args["kid_sel1"] != args["kid_sel2"]:
+        return "C22:verify_proof:nonce-history-depends-on-kid"
+    return "C22:verify_proof:nonce-history:differs-from-decision-table"
+
+
+@cond(q=60, t=200, stubs=_STUBS_B + ["NonceCache := test-and-set on a seen-set (its clock / capacity are C23); a second presentation's kid / nonce are other opaque fields unless they are the same string"],
+      encoded=[pf.verify_proof], bound="two well-formed in-window presentations against one initially empty history: kid 0..3 each (3 configured, two sharing a label), MAC right/wrong each, same or another nonce",
+      replay=_replay_history, signature=_history_sig)
+def nonce_history_is_per_worker(kid_sel1: int, mac_ok1: bool, kid_sel2: int, mac_ok2: bool, same_nonce: bool) -> bool:
+    """
+    pre: 0 <= kid_sel1 <= 3 and 0 <= kid_sel2 <= 3
+    post: _
+    """
+    cache = _SetCache()
+    want1, want2 = _history_expect(kid_sel1, mac_ok1, kid_sel2, mac_ok2, same_nonce)
+    try:
+        got1 = _present(cache, _F_KID, _F_NONCE, kid_sel1, mac_ok1)
+        # the second token's kid is the same string iff it names the same key; its nonce is the same string iff same_nonce
+        got2 = _present(cache, _F_KID if kid_sel2 == kid_sel1 else _F_KID_B, _F_NONCE if same_nonce else _F_NONCE_B, kid_sel2, mac_ok2)
+    except HarnessModelError:
+        raise
+    except Exception:  # noqa: BLE001
+        return False  # only ProofError may escape
+    return got1 == want1 and got2 == want2
 
 
 # ---------------------------------------------------------------------------
